@@ -198,10 +198,20 @@ def r122(rep: Report, ctx: Ctx) -> None:
              "convert_otel_event_stream_to_event_id_to_otelevent_map")):
         fi = ctx.func(fname)
         loops = [l for l in ast.walk(fi.node) if isinstance(l, ast.For)
-                 and isinstance(l.iter, ast.Name) and l.iter.id == var]
+                 and ((isinstance(l.iter, ast.Name) and l.iter.id == var)
+                      or (isinstance(l.iter, ast.Call) and call_name(l.iter)
+                          == "enumerate" and l.iter.args and isinstance(
+                              l.iter.args[0], ast.Name)
+                          and l.iter.args[0].id == var))]
         ok, why = False, "no loop over the stream"
-        if len(loops) == 1 and isinstance(loops[0].target, ast.Name):
-            iv = loops[0].target.id
+        tgt = None
+        if len(loops) == 1:
+            tgt = loops[0].target
+            if isinstance(tgt, ast.Tuple) and isinstance(
+                    loops[0].iter, ast.Call) and len(tgt.elts) == 2:
+                tgt = tgt.elts[1]
+        if len(loops) == 1 and isinstance(tgt, ast.Name):
+            iv = tgt.id
             uses = [n for n in ast.walk(loops[0]) if isinstance(n, ast.Name)
                     and n.id == iv and isinstance(n.ctx, ast.Load)]
             pm = ctx.index.parents(fi)
